@@ -56,12 +56,17 @@ Proof.
 Qed.
 Lemma lose_sorted : forall s n, dir_sorted s -> dir_sorted (lose s n).
 Proof. intros s n S. unfold lose. destruct (nm_find (fkey n) s); [|assumption]. now apply upd_sorted. Qed.
+Lemma pad_sorted : forall s, dir_sorted s -> dir_sorted (pad_tmp s).
+Proof.
+  intros s S. unfold dir_sorted, keys_sorted, pad_tmp in *. rewrite map_map.
+  erewrite map_ext; [exact S|]. intros [k c]. simpl. now destruct (N.even k).
+Qed.
 Lemma crash_state_sorted : forall s ops k v, dir_sorted s -> dir_sorted (crash_state s ops k v).
 Proof.
   intros s ops k v S. unfold crash_state.
   destruct (v =? 1).
   - destruct (nth_error ops k); [apply apply_op_sorted|]; now apply apply_ops_sorted.
-  - destruct (v =? 2); [|now apply apply_ops_sorted].
+  - destruct (v =? 2); [|destruct (v =? 3); [apply pad_sorted|]; now apply apply_ops_sorted].
     generalize (unsynced (firstn k ops) []). intro ns.
     assert (G : forall ns s0, dir_sorted s0 -> dir_sorted (fold_left lose ns s0)).
     { induction ns0 as [|n r IH]; intros s0 S0; [assumption|]. apply IH. now apply lose_sorted. }
